@@ -56,13 +56,11 @@ pub mod w14 {
       pub struct Prog;
       relation r0(i64, i64);
       relation r1(i64, i64);
-      lattice r2(i64, Dual<i64>);
-      lattice r3(i64, i64, Option<i64>);
-      r2(v0, Dual((*v0))) <-- r0(v0, v0) if ((*v0) < 4);
-      r2(v2, v1) <-- r2(v0, v1) if ((*v0) < 2), r0(v0, v2);
-      r3(2, 1, Some(3)) <-- r0(0, 0);
-      r3(v3, v3, v2) <-- r3(v0, v1, v2), r0(v3, v3);
-      r0(0, v1) <-- r0(v0, v1);
+      relation r2(i64, i64, i64);
+      relation r3(i64, i64);
+      r2(v0, v1, v9) <-- let v9 = 3, r3(v0, v1), r3(v1, v9);
+      r2(2, v1, (v3 + 1)) <-- r2(3, v0, v1) if ((*v0) <= 2), r3(v0, v2) if ((*v1) < 1) let v3 = ((*v2) + 1), r1(((*v2) + 0), v3), if (v3 < 6);
+      r2(v0, v0, v1) <-- let v0 = 1, r2(v1, v0, v0), if (v0 <= 6);
    }
    pub struct Inst { p: Prog, pool: Option<ascent::rayon::ThreadPool> }
    pub fn make(pool: Option<usize>) -> Box<dyn Driver> {
@@ -75,8 +73,235 @@ pub mod w14 {
          match rel {
          0 => { let v: Vec<(i64,i64,)> = parse_rows(rows)?; if !append { self.p.r0 = Default::default(); } for x in v { self.p.r0.push(x); } },
          1 => { let v: Vec<(i64,i64,)> = parse_rows(rows)?; if !append { self.p.r1 = Default::default(); } for x in v { self.p.r1.push(x); } },
-         2 => { let v: Vec<(i64,Dual<i64>,)> = parse_rows(rows)?; if !append { self.p.r2 = Default::default(); } for x in v { self.p.r2.push(std::sync::RwLock::new(x)); } },
-         3 => { let v: Vec<(i64,i64,Option<i64>,)> = parse_rows(rows)?; if !append { self.p.r3 = Default::default(); } for x in v { self.p.r3.push(std::sync::RwLock::new(x)); } },
+         2 => { let v: Vec<(i64,i64,i64,)> = parse_rows(rows)?; if !append { self.p.r2 = Default::default(); } for x in v { self.p.r2.push(x); } },
+         3 => { let v: Vec<(i64,i64,)> = parse_rows(rows)?; if !append { self.p.r3 = Default::default(); } for x in v { self.p.r3.push(x); } },
+            _ => return None,
+         }
+         Some(())
+      }
+      fn run(&mut self) { match &self.pool { Some(pl) => { let p = &mut self.p; pl.install(|| p.run()) }, None => self.p.run() } }
+      fn run_here(&mut self) { self.p.run() }
+      fn run_timeout(&mut self, k: usize) -> Option<bool> { let _ = k; None }
+      fn dump(&self) -> String { vec![dump_rel(0, self.p.r0.iter().map(|x| x.render()).collect()), dump_rel(1, self.p.r1.iter().map(|x| x.render()).collect()), dump_rel(2, self.p.r2.iter().map(|x| x.render()).collect()), dump_rel(3, self.p.r3.iter().map(|x| x.render()).collect())].join(" | ") }
+      fn iters(&self) -> String { format!("iters {}", self.p.scc_iters.iter().map(|x| x.to_string()).collect::<Vec<_>>().join(" ")) }
+   }
+}
+
+#[allow(unused, non_snake_case, clippy::all)]
+pub mod w22 {
+   use ascent::*;
+   use ascent::aggregators::*;
+   use ascent::lattice::{Dual, set::Set};
+   use crate::common::*;
+   ascent_par! {
+      pub struct Prog;
+      relation r0(i64, i64);
+      relation r1(i64, i64);
+      relation r2(i64, i64);
+      relation r3(i64, i64);
+      relation r4(i64, i64, i64);
+      r2(v0, v0) <-- r1(v0, 2);
+      r3(v1, v1) <-- r2(v0, v1), r1(1, v2);
+      r4(v1, ((*v1) + 1), v0) <-- let v0 = 3, r3(v1, 2), if ((*v1) < 6), if (v0 <= 6);
+      r2(v0, v1) <-- r1(v0, v1), r0(((*v0) + 1), v2);
+      r2(v0, v2) <-- r3(v0, v1), r3(v1, v2), r3(v2, v3);
+      r2(((*v2) + 1), v2) <-- if let Some(v0) = Some(3), r4(v1, v2, 1), if ((*v2) < 6);
+      r3(v2, v2) <-- r4(v0, v1, v2);
+      r3(2, v2) <-- r2(v0, v1), r3(v2, v3), r2(v4, ((*v2) + 1)), let v5 = (*v1);
+   }
+   pub struct Inst { p: Prog, pool: Option<ascent::rayon::ThreadPool> }
+   pub fn make(pool: Option<usize>) -> Box<dyn Driver> {
+      let pool = pool.map(|n| ascent::rayon::ThreadPoolBuilder::new().num_threads(n).build().unwrap());
+      let p = match &pool { Some(pl) => pl.install(|| Default::default()), None => Default::default() };
+      Box::new(Inst { p, pool })
+   }
+   impl Driver for Inst {
+      fn load(&mut self, rel: usize, rows: &[Sexp], append: bool) -> Option<()> {
+         match rel {
+         0 => { let v: Vec<(i64,i64,)> = parse_rows(rows)?; if !append { self.p.r0 = Default::default(); } for x in v { self.p.r0.push(x); } },
+         1 => { let v: Vec<(i64,i64,)> = parse_rows(rows)?; if !append { self.p.r1 = Default::default(); } for x in v { self.p.r1.push(x); } },
+         2 => { let v: Vec<(i64,i64,)> = parse_rows(rows)?; if !append { self.p.r2 = Default::default(); } for x in v { self.p.r2.push(x); } },
+         3 => { let v: Vec<(i64,i64,)> = parse_rows(rows)?; if !append { self.p.r3 = Default::default(); } for x in v { self.p.r3.push(x); } },
+         4 => { let v: Vec<(i64,i64,i64,)> = parse_rows(rows)?; if !append { self.p.r4 = Default::default(); } for x in v { self.p.r4.push(x); } },
+            _ => return None,
+         }
+         Some(())
+      }
+      fn run(&mut self) { match &self.pool { Some(pl) => { let p = &mut self.p; pl.install(|| p.run()) }, None => self.p.run() } }
+      fn run_here(&mut self) { self.p.run() }
+      fn run_timeout(&mut self, k: usize) -> Option<bool> { let _ = k; None }
+      fn dump(&self) -> String { vec![dump_rel(0, self.p.r0.iter().map(|x| x.render()).collect()), dump_rel(1, self.p.r1.iter().map(|x| x.render()).collect()), dump_rel(2, self.p.r2.iter().map(|x| x.render()).collect()), dump_rel(3, self.p.r3.iter().map(|x| x.render()).collect()), dump_rel(4, self.p.r4.iter().map(|x| x.render()).collect())].join(" | ") }
+      fn iters(&self) -> String { format!("iters {}", self.p.scc_iters.iter().map(|x| x.to_string()).collect::<Vec<_>>().join(" ")) }
+   }
+}
+
+#[allow(unused, non_snake_case, clippy::all)]
+pub mod w30 {
+   use ascent::*;
+   use ascent::aggregators::*;
+   use ascent::lattice::{Dual, set::Set};
+   use crate::common::*;
+   ascent_par! {
+      pub struct Prog;
+      relation r0(i64, i64);
+      relation r1(i64, i64);
+      relation r2(i64, i64);
+      r1(v0, v1) <-- let v0 = 3, r0(v1, v0), if (v0 <= 6);
+      r1(((*v0) + 1), v0) <-- r1(v0, v1), r0(((*v1) + 0), v1), if ((*v0) < 6);
+      r1(v0, v1) <-- let v9 = 3, r2(v0, v1), r2(v1, v9);
+      r1(v0, v1) <-- r1(v0, v1), r0(((*v0) + 1), v2);
+      r0((v2 + 1), 2) <-- r1(v0, v1) if ((*v1) != 3) let v2 = ((*v1) + 0), r1(v0, v0) if ((*v1) != 4), if (v2 < 6);
+   }
+   pub struct Inst { p: Prog, pool: Option<ascent::rayon::ThreadPool> }
+   pub fn make(pool: Option<usize>) -> Box<dyn Driver> {
+      let pool = pool.map(|n| ascent::rayon::ThreadPoolBuilder::new().num_threads(n).build().unwrap());
+      let p = match &pool { Some(pl) => pl.install(|| Default::default()), None => Default::default() };
+      Box::new(Inst { p, pool })
+   }
+   impl Driver for Inst {
+      fn load(&mut self, rel: usize, rows: &[Sexp], append: bool) -> Option<()> {
+         match rel {
+         0 => { let v: Vec<(i64,i64,)> = parse_rows(rows)?; if !append { self.p.r0 = Default::default(); } for x in v { self.p.r0.push(x); } },
+         1 => { let v: Vec<(i64,i64,)> = parse_rows(rows)?; if !append { self.p.r1 = Default::default(); } for x in v { self.p.r1.push(x); } },
+         2 => { let v: Vec<(i64,i64,)> = parse_rows(rows)?; if !append { self.p.r2 = Default::default(); } for x in v { self.p.r2.push(x); } },
+            _ => return None,
+         }
+         Some(())
+      }
+      fn run(&mut self) { match &self.pool { Some(pl) => { let p = &mut self.p; pl.install(|| p.run()) }, None => self.p.run() } }
+      fn run_here(&mut self) { self.p.run() }
+      fn run_timeout(&mut self, k: usize) -> Option<bool> { let _ = k; None }
+      fn dump(&self) -> String { vec![dump_rel(0, self.p.r0.iter().map(|x| x.render()).collect()), dump_rel(1, self.p.r1.iter().map(|x| x.render()).collect()), dump_rel(2, self.p.r2.iter().map(|x| x.render()).collect())].join(" | ") }
+      fn iters(&self) -> String { format!("iters {}", self.p.scc_iters.iter().map(|x| x.to_string()).collect::<Vec<_>>().join(" ")) }
+   }
+}
+
+#[allow(unused, non_snake_case, clippy::all)]
+pub mod w38 {
+   use ascent::*;
+   use ascent::aggregators::*;
+   use ascent::lattice::{Dual, set::Set};
+   use crate::common::*;
+   ascent_par! {
+      pub struct Prog;
+      relation r0(i64, i64);
+      relation r1(i64, i64);
+      relation r2(i64);
+      relation r3(i64, i64);
+      relation r4(i64);
+      relation r5(i64, i64);
+      r1(v0, v8) <-- if let Some(v9) = Some(1), r1(v0, v1), r1(v1, v9) let v8 = ((*v0) + 1);
+      r3(v0, v1) <-- let v9 = 2, r0(v0, v1), r0(v1, v9);
+      r3(0, v0) <-- for v0 in 1..2, r4(v0), r0(v0, v1), if (v0 == 0), r1(v1, v2) if ((*v1) != 6) let v3 = (v0 + 0);
+   }
+   pub struct Inst { p: Prog, pool: Option<ascent::rayon::ThreadPool> }
+   pub fn make(pool: Option<usize>) -> Box<dyn Driver> {
+      let pool = pool.map(|n| ascent::rayon::ThreadPoolBuilder::new().num_threads(n).build().unwrap());
+      let p = match &pool { Some(pl) => pl.install(|| Default::default()), None => Default::default() };
+      Box::new(Inst { p, pool })
+   }
+   impl Driver for Inst {
+      fn load(&mut self, rel: usize, rows: &[Sexp], append: bool) -> Option<()> {
+         match rel {
+         0 => { let v: Vec<(i64,i64,)> = parse_rows(rows)?; if !append { self.p.r0 = Default::default(); } for x in v { self.p.r0.push(x); } },
+         1 => { let v: Vec<(i64,i64,)> = parse_rows(rows)?; if !append { self.p.r1 = Default::default(); } for x in v { self.p.r1.push(x); } },
+         2 => { let v: Vec<(i64,)> = parse_rows(rows)?; if !append { self.p.r2 = Default::default(); } for x in v { self.p.r2.push(x); } },
+         3 => { let v: Vec<(i64,i64,)> = parse_rows(rows)?; if !append { self.p.r3 = Default::default(); } for x in v { self.p.r3.push(x); } },
+         4 => { let v: Vec<(i64,)> = parse_rows(rows)?; if !append { self.p.r4 = Default::default(); } for x in v { self.p.r4.push(x); } },
+         5 => { let v: Vec<(i64,i64,)> = parse_rows(rows)?; if !append { self.p.r5 = Default::default(); } for x in v { self.p.r5.push(x); } },
+            _ => return None,
+         }
+         Some(())
+      }
+      fn run(&mut self) { match &self.pool { Some(pl) => { let p = &mut self.p; pl.install(|| p.run()) }, None => self.p.run() } }
+      fn run_here(&mut self) { self.p.run() }
+      fn run_timeout(&mut self, k: usize) -> Option<bool> { let _ = k; None }
+      fn dump(&self) -> String { vec![dump_rel(0, self.p.r0.iter().map(|x| x.render()).collect()), dump_rel(1, self.p.r1.iter().map(|x| x.render()).collect()), dump_rel(2, self.p.r2.iter().map(|x| x.render()).collect()), dump_rel(3, self.p.r3.iter().map(|x| x.render()).collect()), dump_rel(4, self.p.r4.iter().map(|x| x.render()).collect()), dump_rel(5, self.p.r5.iter().map(|x| x.render()).collect())].join(" | ") }
+      fn iters(&self) -> String { format!("iters {}", self.p.scc_iters.iter().map(|x| x.to_string()).collect::<Vec<_>>().join(" ")) }
+   }
+}
+
+#[allow(unused, non_snake_case, clippy::all)]
+pub mod w46 {
+   use ascent::*;
+   use ascent::aggregators::*;
+   use ascent::lattice::{Dual, set::Set};
+   use crate::common::*;
+   ascent_par! {
+      pub struct Prog;
+      relation r0(i64, i64);
+      relation r1(i64);
+      relation r2(i64, i64, i64);
+      lattice r3(Set<i64>);
+      lattice r4(i64, Option<i64>);
+      r3(Set::singleton((*v1))) <-- r2(v0, 1, v1) if ((*v1) < 4);
+      r3(v0) <-- r3(v0), r1(v1);
+      r4(v0, Some((*v0))) <-- r1(v0);
+      r4(v0, Some((*v2))) <-- r4(v0, v1), r0(v2, v3);
+      r0(v1, v3) <-- r0(v0, v1) if ((*v0) < 3), r0(v2, v3) if ((*v2) < 3);
+      r4(1, None) <-- r4(v0, v1), r4(v2, v3);
+      r2(((*v0) + 1), v0, v0) <-- r1(v0), r3(v1), if ((*v0) < 6);
+      r4(1, Some(1)) <-- r3(v0);
+   }
+   pub struct Inst { p: Prog, pool: Option<ascent::rayon::ThreadPool> }
+   pub fn make(pool: Option<usize>) -> Box<dyn Driver> {
+      let pool = pool.map(|n| ascent::rayon::ThreadPoolBuilder::new().num_threads(n).build().unwrap());
+      let p = match &pool { Some(pl) => pl.install(|| Default::default()), None => Default::default() };
+      Box::new(Inst { p, pool })
+   }
+   impl Driver for Inst {
+      fn load(&mut self, rel: usize, rows: &[Sexp], append: bool) -> Option<()> {
+         match rel {
+         0 => { let v: Vec<(i64,i64,)> = parse_rows(rows)?; if !append { self.p.r0 = Default::default(); } for x in v { self.p.r0.push(x); } },
+         1 => { let v: Vec<(i64,)> = parse_rows(rows)?; if !append { self.p.r1 = Default::default(); } for x in v { self.p.r1.push(x); } },
+         2 => { let v: Vec<(i64,i64,i64,)> = parse_rows(rows)?; if !append { self.p.r2 = Default::default(); } for x in v { self.p.r2.push(x); } },
+         3 => { let v: Vec<(Set<i64>,)> = parse_rows(rows)?; if !append { self.p.r3 = Default::default(); } for x in v { self.p.r3.push(std::sync::RwLock::new(x)); } },
+         4 => { let v: Vec<(i64,Option<i64>,)> = parse_rows(rows)?; if !append { self.p.r4 = Default::default(); } for x in v { self.p.r4.push(std::sync::RwLock::new(x)); } },
+            _ => return None,
+         }
+         Some(())
+      }
+      fn run(&mut self) { match &self.pool { Some(pl) => { let p = &mut self.p; pl.install(|| p.run()) }, None => self.p.run() } }
+      fn run_here(&mut self) { self.p.run() }
+      fn run_timeout(&mut self, k: usize) -> Option<bool> { let _ = k; None }
+      fn dump(&self) -> String { vec![dump_rel(0, self.p.r0.iter().map(|x| x.render()).collect()), dump_rel(1, self.p.r1.iter().map(|x| x.render()).collect()), dump_rel(2, self.p.r2.iter().map(|x| x.render()).collect()), dump_rel(3, self.p.r3.iter().map(|x| x.read().unwrap().render()).collect()), dump_rel(4, self.p.r4.iter().map(|x| x.read().unwrap().render()).collect())].join(" | ") }
+      fn iters(&self) -> String { format!("iters {}", self.p.scc_iters.iter().map(|x| x.to_string()).collect::<Vec<_>>().join(" ")) }
+   }
+}
+
+#[allow(unused, non_snake_case, clippy::all)]
+pub mod w54 {
+   use ascent::*;
+   use ascent::aggregators::*;
+   use ascent::lattice::{Dual, set::Set};
+   use crate::common::*;
+   ascent_par! {
+      pub struct Prog;
+      relation r0(i64);
+      relation r1(i64, i64);
+      lattice r2(i64, i64, Dual<i64>);
+      lattice r3(i64, Dual<i64>);
+      r2(1, v0, Dual((*v0))) <-- r0(v0);
+      r2(v3, v1, v2) <-- r2(v0, v1, v2), r1(v3, v3);
+      r3(v0, Dual((*v0))) <-- r0(v0);
+      r3(v0, Dual(((v1.0) + 0))) <-- r3(v0, v1), r1(1, v0);
+      r2(v0, v0, Dual((*v0))) <-- r1(v0, v0), r0(v0);
+      r2(v0, v0, Dual(3)) <-- r2(v0, v0, v1), r0(v0);
+      r3(((*v1) + 1), Dual(((v2.0) + 1))) <-- r2(v0, v1, v2) if ((*v0) < 2), if ((*v1) < 6);
+   }
+   pub struct Inst { p: Prog, pool: Option<ascent::rayon::ThreadPool> }
+   pub fn make(pool: Option<usize>) -> Box<dyn Driver> {
+      let pool = pool.map(|n| ascent::rayon::ThreadPoolBuilder::new().num_threads(n).build().unwrap());
+      let p = match &pool { Some(pl) => pl.install(|| Default::default()), None => Default::default() };
+      Box::new(Inst { p, pool })
+   }
+   impl Driver for Inst {
+      fn load(&mut self, rel: usize, rows: &[Sexp], append: bool) -> Option<()> {
+         match rel {
+         0 => { let v: Vec<(i64,)> = parse_rows(rows)?; if !append { self.p.r0 = Default::default(); } for x in v { self.p.r0.push(x); } },
+         1 => { let v: Vec<(i64,i64,)> = parse_rows(rows)?; if !append { self.p.r1 = Default::default(); } for x in v { self.p.r1.push(x); } },
+         2 => { let v: Vec<(i64,i64,Dual<i64>,)> = parse_rows(rows)?; if !append { self.p.r2 = Default::default(); } for x in v { self.p.r2.push(std::sync::RwLock::new(x)); } },
+         3 => { let v: Vec<(i64,Dual<i64>,)> = parse_rows(rows)?; if !append { self.p.r3 = Default::default(); } for x in v { self.p.r3.push(std::sync::RwLock::new(x)); } },
             _ => return None,
          }
          Some(())
@@ -90,7 +315,59 @@ pub mod w14 {
 }
 
 #[allow(unused, non_snake_case, clippy::all)]
-pub mod w22 {
+pub mod w62 {
+   use ascent::*;
+   use ascent::aggregators::*;
+   use ascent::lattice::{Dual, set::Set};
+   use crate::common::*;
+   ascent_par! {
+      pub struct Prog;
+      relation r0(i64, i64);
+      relation r1(i64, i64);
+      relation r2(i64);
+      lattice r3(i64, Set<i64>);
+      lattice r4(i64, Set<i64>);
+      r3(v0, Set::singleton((*v1))) <-- r1(v0, v1);
+      r3(v1, v2) <-- r3(v0, v2), r1(v0, v1);
+      r3(((*v0) + 1), Set::singleton((*v0))) <-- r2(v0), if ((*v0) < 6);
+      r3(v2, v1) <-- r3(v0, v1) if ((*v0) < 3), r0(v2, v0) if ((*v2) < 4);
+      r3(v0, v2) <-- r3(v0, v1), r3(v0, v2);
+      r4(v0, Set::singleton((*v1))) <-- r0(v0, v1);
+      r4(v1, v2) <-- r4(v0, v2), r1(v0, v1);
+      r4(v0, Set::singleton((*v0))) <-- r1(v0, v0);
+      r4(v2, v1) <-- r4(v0, v1) if ((*v0) < 6), r0(v2, v3);
+      r3(v0, Set::singleton(1)) <-- r4(v0, v1) if ((*v0) < 4), r3(v2, v3);
+      r0(v0, v1) <-- r0(v0, v1) if ((*v1) < 2);
+      r4(v0, Set::singleton(1)) <-- r3(v0, v1);
+   }
+   pub struct Inst { p: Prog, pool: Option<ascent::rayon::ThreadPool> }
+   pub fn make(pool: Option<usize>) -> Box<dyn Driver> {
+      let pool = pool.map(|n| ascent::rayon::ThreadPoolBuilder::new().num_threads(n).build().unwrap());
+      let p = match &pool { Some(pl) => pl.install(|| Default::default()), None => Default::default() };
+      Box::new(Inst { p, pool })
+   }
+   impl Driver for Inst {
+      fn load(&mut self, rel: usize, rows: &[Sexp], append: bool) -> Option<()> {
+         match rel {
+         0 => { let v: Vec<(i64,i64,)> = parse_rows(rows)?; if !append { self.p.r0 = Default::default(); } for x in v { self.p.r0.push(x); } },
+         1 => { let v: Vec<(i64,i64,)> = parse_rows(rows)?; if !append { self.p.r1 = Default::default(); } for x in v { self.p.r1.push(x); } },
+         2 => { let v: Vec<(i64,)> = parse_rows(rows)?; if !append { self.p.r2 = Default::default(); } for x in v { self.p.r2.push(x); } },
+         3 => { let v: Vec<(i64,Set<i64>,)> = parse_rows(rows)?; if !append { self.p.r3 = Default::default(); } for x in v { self.p.r3.push(std::sync::RwLock::new(x)); } },
+         4 => { let v: Vec<(i64,Set<i64>,)> = parse_rows(rows)?; if !append { self.p.r4 = Default::default(); } for x in v { self.p.r4.push(std::sync::RwLock::new(x)); } },
+            _ => return None,
+         }
+         Some(())
+      }
+      fn run(&mut self) { match &self.pool { Some(pl) => { let p = &mut self.p; pl.install(|| p.run()) }, None => self.p.run() } }
+      fn run_here(&mut self) { self.p.run() }
+      fn run_timeout(&mut self, k: usize) -> Option<bool> { let _ = k; None }
+      fn dump(&self) -> String { vec![dump_rel(0, self.p.r0.iter().map(|x| x.render()).collect()), dump_rel(1, self.p.r1.iter().map(|x| x.render()).collect()), dump_rel(2, self.p.r2.iter().map(|x| x.render()).collect()), dump_rel(3, self.p.r3.iter().map(|x| x.read().unwrap().render()).collect()), dump_rel(4, self.p.r4.iter().map(|x| x.read().unwrap().render()).collect())].join(" | ") }
+      fn iters(&self) -> String { format!("iters {}", self.p.scc_iters.iter().map(|x| x.to_string()).collect::<Vec<_>>().join(" ")) }
+   }
+}
+
+#[allow(unused, non_snake_case, clippy::all)]
+pub mod w70 {
    use ascent::*;
    use ascent::aggregators::*;
    use ascent::lattice::{Dual, set::Set};
@@ -100,24 +377,12 @@ pub mod w22 {
       relation r0(i64);
       relation r1(i64, i64);
       relation r2(i64, i64);
-      relation r3(i64);
-      relation r4(i64, i64);
-      relation r5(i64, i64);
-      relation r6(i64);
-      relation r7(i64);
-      relation r8(i64);
-      relation r9(i64, i64);
-      relation r10(i64, i64);
-      r2(v0, v2) <-- r1(v0, v1), r1(v1, v2), r4(v2, v3);
-      r2(v0, v2) <-- r2(v0, v1), r1(v1, v2), r2(v2, v3);
-      r2(2, v0) <-- r2(v0, v1) if ((*v0) != 5) let v2 = ((*v1) + 1);
-      r4(((*v0) + 1), v0) <-- r0(v0) if ((*v0) != 2), if ((*v0) < 6);
-      r5(v1, v21) <-- r4(v0, v1), agg v21 = min(v20) in r3(v20);
-      r6(v0) <-- r3(v0), agg v21 = count() in r3((*v0));
-      r7(v0) <-- r0(v0), agg v21 = min(v20) in r4(v20, _);
-      r8(v1) <-- r1(v0, v1), r4(v32, v33), r3(v0), agg v21 = sum(v20) in r4(v20, (*v32));
-      r9(v1, (v21 as i64)) <-- r2(v0, v1), r4(v1, v1), r2(v1, v1), agg v21 = count() in r0(_);
-      r10(v0, 2) <-- r1(v0, v1), r1(v1, v1), agg () = not() in r4(_, _);
+      relation r3(i64, i64, i64);
+      lattice r4(i64, Dual<i64>);
+      r4(v0, Dual((*v0))) <-- r0(v0);
+      r0(v1) <-- r2(v0, v0), r4(v1, v2) if ((*v1) < 6);
+      r2(v2, v2) <-- r4(v0, v1), r2(v0, v2) if ((*v2) < 5);
+      r4(v0, Dual((*v0))) <-- r0(v0), r3(v0, v1, v2);
    }
    pub struct Inst { p: Prog, pool: Option<ascent::rayon::ThreadPool> }
    pub fn make(pool: Option<usize>) -> Box<dyn Driver> {
@@ -131,14 +396,8 @@ pub mod w22 {
          0 => { let v: Vec<(i64,)> = parse_rows(rows)?; if !append { self.p.r0 = Default::default(); } for x in v { self.p.r0.push(x); } },
          1 => { let v: Vec<(i64,i64,)> = parse_rows(rows)?; if !append { self.p.r1 = Default::default(); } for x in v { self.p.r1.push(x); } },
          2 => { let v: Vec<(i64,i64,)> = parse_rows(rows)?; if !append { self.p.r2 = Default::default(); } for x in v { self.p.r2.push(x); } },
-         3 => { let v: Vec<(i64,)> = parse_rows(rows)?; if !append { self.p.r3 = Default::default(); } for x in v { self.p.r3.push(x); } },
-         4 => { let v: Vec<(i64,i64,)> = parse_rows(rows)?; if !append { self.p.r4 = Default::default(); } for x in v { self.p.r4.push(x); } },
-         5 => { let v: Vec<(i64,i64,)> = parse_rows(rows)?; if !append { self.p.r5 = Default::default(); } for x in v { self.p.r5.push(x); } },
-         6 => { let v: Vec<(i64,)> = parse_rows(rows)?; if !append { self.p.r6 = Default::default(); } for x in v { self.p.r6.push(x); } },
-         7 => { let v: Vec<(i64,)> = parse_rows(rows)?; if !append { self.p.r7 = Default::default(); } for x in v { self.p.r7.push(x); } },
-         8 => { let v: Vec<(i64,)> = parse_rows(rows)?; if !append { self.p.r8 = Default::default(); } for x in v { self.p.r8.push(x); } },
-         9 => { let v: Vec<(i64,i64,)> = parse_rows(rows)?; if !append { self.p.r9 = Default::default(); } for x in v { self.p.r9.push(x); } },
-         10 => { let v: Vec<(i64,i64,)> = parse_rows(rows)?; if !append { self.p.r10 = Default::default(); } for x in v { self.p.r10.push(x); } },
+         3 => { let v: Vec<(i64,i64,i64,)> = parse_rows(rows)?; if !append { self.p.r3 = Default::default(); } for x in v { self.p.r3.push(x); } },
+         4 => { let v: Vec<(i64,Dual<i64>,)> = parse_rows(rows)?; if !append { self.p.r4 = Default::default(); } for x in v { self.p.r4.push(std::sync::RwLock::new(x)); } },
             _ => return None,
          }
          Some(())
@@ -146,11 +405,165 @@ pub mod w22 {
       fn run(&mut self) { match &self.pool { Some(pl) => { let p = &mut self.p; pl.install(|| p.run()) }, None => self.p.run() } }
       fn run_here(&mut self) { self.p.run() }
       fn run_timeout(&mut self, k: usize) -> Option<bool> { let _ = k; None }
-      fn dump(&self) -> String { vec![dump_rel(0, self.p.r0.iter().map(|x| x.render()).collect()), dump_rel(1, self.p.r1.iter().map(|x| x.render()).collect()), dump_rel(2, self.p.r2.iter().map(|x| x.render()).collect()), dump_rel(3, self.p.r3.iter().map(|x| x.render()).collect()), dump_rel(4, self.p.r4.iter().map(|x| x.render()).collect()), dump_rel(5, self.p.r5.iter().map(|x| x.render()).collect()), dump_rel(6, self.p.r6.iter().map(|x| x.render()).collect()), dump_rel(7, self.p.r7.iter().map(|x| x.render()).collect()), dump_rel(8, self.p.r8.iter().map(|x| x.render()).collect()), dump_rel(9, self.p.r9.iter().map(|x| x.render()).collect()), dump_rel(10, self.p.r10.iter().map(|x| x.render()).collect())].join(" | ") }
+      fn dump(&self) -> String { vec![dump_rel(0, self.p.r0.iter().map(|x| x.render()).collect()), dump_rel(1, self.p.r1.iter().map(|x| x.render()).collect()), dump_rel(2, self.p.r2.iter().map(|x| x.render()).collect()), dump_rel(3, self.p.r3.iter().map(|x| x.render()).collect()), dump_rel(4, self.p.r4.iter().map(|x| x.read().unwrap().render()).collect())].join(" | ") }
+      fn iters(&self) -> String { format!("iters {}", self.p.scc_iters.iter().map(|x| x.to_string()).collect::<Vec<_>>().join(" ")) }
+   }
+}
+
+#[allow(unused, non_snake_case, clippy::all)]
+pub mod w78 {
+   use ascent::*;
+   use ascent::aggregators::*;
+   use ascent::lattice::{Dual, set::Set};
+   use crate::common::*;
+   ascent_par! {
+      pub struct Prog;
+      relation r0(i64);
+      relation r1(i64, i64, i64);
+      lattice r2(Dual<i64>);
+      lattice r3(i64, Set<i64>);
+      r2(Dual((*v0))) <-- r1(v0, v1, v1);
+      r3(((*v0) + 1), Set::singleton(0)) <-- r0(v0), if ((*v0) < 6);
+      r1(0, v1, 2) <-- r0(v0), r1(v1, 3, v2) if ((*v2) < 4);
+      r2(Dual(4)) <-- r2(v0);
+      r0(v0) <-- r0(v0) if ((*v0) < 6), r3(v0, v1);
+   }
+   pub struct Inst { p: Prog, pool: Option<ascent::rayon::ThreadPool> }
+   pub fn make(pool: Option<usize>) -> Box<dyn Driver> {
+      let pool = pool.map(|n| ascent::rayon::ThreadPoolBuilder::new().num_threads(n).build().unwrap());
+      let p = match &pool { Some(pl) => pl.install(|| Default::default()), None => Default::default() };
+      Box::new(Inst { p, pool })
+   }
+   impl Driver for Inst {
+      fn load(&mut self, rel: usize, rows: &[Sexp], append: bool) -> Option<()> {
+         match rel {
+         0 => { let v: Vec<(i64,)> = parse_rows(rows)?; if !append { self.p.r0 = Default::default(); } for x in v { self.p.r0.push(x); } },
+         1 => { let v: Vec<(i64,i64,i64,)> = parse_rows(rows)?; if !append { self.p.r1 = Default::default(); } for x in v { self.p.r1.push(x); } },
+         2 => { let v: Vec<(Dual<i64>,)> = parse_rows(rows)?; if !append { self.p.r2 = Default::default(); } for x in v { self.p.r2.push(std::sync::RwLock::new(x)); } },
+         3 => { let v: Vec<(i64,Set<i64>,)> = parse_rows(rows)?; if !append { self.p.r3 = Default::default(); } for x in v { self.p.r3.push(std::sync::RwLock::new(x)); } },
+            _ => return None,
+         }
+         Some(())
+      }
+      fn run(&mut self) { match &self.pool { Some(pl) => { let p = &mut self.p; pl.install(|| p.run()) }, None => self.p.run() } }
+      fn run_here(&mut self) { self.p.run() }
+      fn run_timeout(&mut self, k: usize) -> Option<bool> { let _ = k; None }
+      fn dump(&self) -> String { vec![dump_rel(0, self.p.r0.iter().map(|x| x.render()).collect()), dump_rel(1, self.p.r1.iter().map(|x| x.render()).collect()), dump_rel(2, self.p.r2.iter().map(|x| x.read().unwrap().render()).collect()), dump_rel(3, self.p.r3.iter().map(|x| x.read().unwrap().render()).collect())].join(" | ") }
+      fn iters(&self) -> String { format!("iters {}", self.p.scc_iters.iter().map(|x| x.to_string()).collect::<Vec<_>>().join(" ")) }
+   }
+}
+
+#[allow(unused, non_snake_case, clippy::all)]
+pub mod w86 {
+   use ascent::*;
+   use ascent::aggregators::*;
+   use ascent::lattice::{Dual, set::Set};
+   use crate::common::*;
+   ascent_par! {
+      pub struct Prog;
+      relation r0(i64, i64);
+      relation r1(i64, i64, i64);
+      relation r2(i64);
+      relation r3(i64, i64);
+      relation r4(i64);
+      relation r5(i64);
+      relation r6(i64, i64);
+      relation r7(i64);
+      r1(v0, v0, 3) <-- for v0 in 2..4, r0(0, (v0 + 0));
+      r2(((*v0) + 1)) <-- r0(v0, 0), for v1 in [1, 0, 2], if ((*v0) < 6);
+      r3(v1, v1) <-- r1(v0, v1, v2), r2(v2);
+      r3(v0, v1) <-- r0(v0, v1), r3(v1, v1);
+      r3((v0 + 1), (v0 + 1)) <-- if let Some(v0) = Some(3), if (v0 < 6), if (v0 < 6);
+      r1(v0, v3, v2) <-- r2(v0) if ((*v0) < 3) let v1 = ((*v0) + 1), r3(v2, v3), for v4 in 1..4, r3(((*v0) + 1), v5);
+      r3(0, 0);
+      r1(v0, 3, v0) <-- for v0 in [2, 4, 2], r2(v1);
+      r4(v0) <-- r0(v0, v1), agg v21 = count() in r0(_, (*v1));
+      r5(v1) <-- r1(v0, v1, v2), agg v21 = max(v20) in r1((*v1), (*v0), v20);
+      r6(v0, (v21 as i64)) <-- r0(v0, v1), agg v21 = count() in r3((*v0), _);
+      r7(v0) <-- r1(v0, v1, v2), r1(v0, v33, v34), agg v21 = count() in r1(_, 2, (*v33));
+   }
+   pub struct Inst { p: Prog, pool: Option<ascent::rayon::ThreadPool> }
+   pub fn make(pool: Option<usize>) -> Box<dyn Driver> {
+      let pool = pool.map(|n| ascent::rayon::ThreadPoolBuilder::new().num_threads(n).build().unwrap());
+      let p = match &pool { Some(pl) => pl.install(|| Default::default()), None => Default::default() };
+      Box::new(Inst { p, pool })
+   }
+   impl Driver for Inst {
+      fn load(&mut self, rel: usize, rows: &[Sexp], append: bool) -> Option<()> {
+         match rel {
+         0 => { let v: Vec<(i64,i64,)> = parse_rows(rows)?; if !append { self.p.r0 = Default::default(); } for x in v { self.p.r0.push(x); } },
+         1 => { let v: Vec<(i64,i64,i64,)> = parse_rows(rows)?; if !append { self.p.r1 = Default::default(); } for x in v { self.p.r1.push(x); } },
+         2 => { let v: Vec<(i64,)> = parse_rows(rows)?; if !append { self.p.r2 = Default::default(); } for x in v { self.p.r2.push(x); } },
+         3 => { let v: Vec<(i64,i64,)> = parse_rows(rows)?; if !append { self.p.r3 = Default::default(); } for x in v { self.p.r3.push(x); } },
+         4 => { let v: Vec<(i64,)> = parse_rows(rows)?; if !append { self.p.r4 = Default::default(); } for x in v { self.p.r4.push(x); } },
+         5 => { let v: Vec<(i64,)> = parse_rows(rows)?; if !append { self.p.r5 = Default::default(); } for x in v { self.p.r5.push(x); } },
+         6 => { let v: Vec<(i64,i64,)> = parse_rows(rows)?; if !append { self.p.r6 = Default::default(); } for x in v { self.p.r6.push(x); } },
+         7 => { let v: Vec<(i64,)> = parse_rows(rows)?; if !append { self.p.r7 = Default::default(); } for x in v { self.p.r7.push(x); } },
+            _ => return None,
+         }
+         Some(())
+      }
+      fn run(&mut self) { match &self.pool { Some(pl) => { let p = &mut self.p; pl.install(|| p.run()) }, None => self.p.run() } }
+      fn run_here(&mut self) { self.p.run() }
+      fn run_timeout(&mut self, k: usize) -> Option<bool> { let _ = k; None }
+      fn dump(&self) -> String { vec![dump_rel(0, self.p.r0.iter().map(|x| x.render()).collect()), dump_rel(1, self.p.r1.iter().map(|x| x.render()).collect()), dump_rel(2, self.p.r2.iter().map(|x| x.render()).collect()), dump_rel(3, self.p.r3.iter().map(|x| x.render()).collect()), dump_rel(4, self.p.r4.iter().map(|x| x.render()).collect()), dump_rel(5, self.p.r5.iter().map(|x| x.render()).collect()), dump_rel(6, self.p.r6.iter().map(|x| x.render()).collect()), dump_rel(7, self.p.r7.iter().map(|x| x.render()).collect())].join(" | ") }
+      fn iters(&self) -> String { format!("iters {}", self.p.scc_iters.iter().map(|x| x.to_string()).collect::<Vec<_>>().join(" ")) }
+   }
+}
+
+#[allow(unused, non_snake_case, clippy::all)]
+pub mod w94 {
+   use ascent::*;
+   use ascent::aggregators::*;
+   use ascent::lattice::{Dual, set::Set};
+   use crate::common::*;
+   ascent_par! {
+      pub struct Prog;
+      relation r0(i64, i64);
+      relation r1(i64, i64);
+      relation r2(i64, i64);
+      relation r3(i64, i64);
+      relation r4(i64);
+      relation r5(i64, i64);
+      relation r6(i64, i64);
+      relation r7(i64);
+      r3(v0, v8) <-- if let Some(v9) = Some(0), r2(v0, v1), r0(v1, v9) let v8 = ((*v0) + 1);
+      r0(v0, v0) <-- if let Some(v0) = Some(3), r1((v0 + 1), v0), r0((v0 + 0), v0), if (v0 <= 6);
+      r0(v0, v0) <-- r1(v0, v1);
+      r4(v0) <-- r0(v0, v1), agg v21 = min(v20) in r3((*v1), v20);
+      r5(v1, 2) <-- r3(v0, v1), agg () = not() in r4((*v0));
+      r6(v32, 0) <-- r2(v0, v1), r0(v32, v32), r2(v33, v34), agg () = not() in r2((*v33), _);
+      r7(v0) <-- r2(v0, v1), agg v21 = count() in r6(_, (*v1));
+   }
+   pub struct Inst { p: Prog, pool: Option<ascent::rayon::ThreadPool> }
+   pub fn make(pool: Option<usize>) -> Box<dyn Driver> {
+      let pool = pool.map(|n| ascent::rayon::ThreadPoolBuilder::new().num_threads(n).build().unwrap());
+      let p = match &pool { Some(pl) => pl.install(|| Default::default()), None => Default::default() };
+      Box::new(Inst { p, pool })
+   }
+   impl Driver for Inst {
+      fn load(&mut self, rel: usize, rows: &[Sexp], append: bool) -> Option<()> {
+         match rel {
+         0 => { let v: Vec<(i64,i64,)> = parse_rows(rows)?; if !append { self.p.r0 = Default::default(); } for x in v { self.p.r0.push(x); } },
+         1 => { let v: Vec<(i64,i64,)> = parse_rows(rows)?; if !append { self.p.r1 = Default::default(); } for x in v { self.p.r1.push(x); } },
+         2 => { let v: Vec<(i64,i64,)> = parse_rows(rows)?; if !append { self.p.r2 = Default::default(); } for x in v { self.p.r2.push(x); } },
+         3 => { let v: Vec<(i64,i64,)> = parse_rows(rows)?; if !append { self.p.r3 = Default::default(); } for x in v { self.p.r3.push(x); } },
+         4 => { let v: Vec<(i64,)> = parse_rows(rows)?; if !append { self.p.r4 = Default::default(); } for x in v { self.p.r4.push(x); } },
+         5 => { let v: Vec<(i64,i64,)> = parse_rows(rows)?; if !append { self.p.r5 = Default::default(); } for x in v { self.p.r5.push(x); } },
+         6 => { let v: Vec<(i64,i64,)> = parse_rows(rows)?; if !append { self.p.r6 = Default::default(); } for x in v { self.p.r6.push(x); } },
+         7 => { let v: Vec<(i64,)> = parse_rows(rows)?; if !append { self.p.r7 = Default::default(); } for x in v { self.p.r7.push(x); } },
+            _ => return None,
+         }
+         Some(())
+      }
+      fn run(&mut self) { match &self.pool { Some(pl) => { let p = &mut self.p; pl.install(|| p.run()) }, None => self.p.run() } }
+      fn run_here(&mut self) { self.p.run() }
+      fn run_timeout(&mut self, k: usize) -> Option<bool> { let _ = k; None }
+      fn dump(&self) -> String { vec![dump_rel(0, self.p.r0.iter().map(|x| x.render()).collect()), dump_rel(1, self.p.r1.iter().map(|x| x.render()).collect()), dump_rel(2, self.p.r2.iter().map(|x| x.render()).collect()), dump_rel(3, self.p.r3.iter().map(|x| x.render()).collect()), dump_rel(4, self.p.r4.iter().map(|x| x.render()).collect()), dump_rel(5, self.p.r5.iter().map(|x| x.render()).collect()), dump_rel(6, self.p.r6.iter().map(|x| x.render()).collect()), dump_rel(7, self.p.r7.iter().map(|x| x.render()).collect())].join(" | ") }
       fn iters(&self) -> String { format!("iters {}", self.p.scc_iters.iter().map(|x| x.to_string()).collect::<Vec<_>>().join(" ")) }
    }
 }
 
 fn main() {
-   common::main_loop(&[("w6", w6::make as common::Factory), ("w14", w14::make as common::Factory), ("w22", w22::make as common::Factory)]);
+   common::main_loop(&[("w6", w6::make as common::Factory), ("w14", w14::make as common::Factory), ("w22", w22::make as common::Factory), ("w30", w30::make as common::Factory), ("w38", w38::make as common::Factory), ("w46", w46::make as common::Factory), ("w54", w54::make as common::Factory), ("w62", w62::make as common::Factory), ("w70", w70::make as common::Factory), ("w78", w78::make as common::Factory), ("w86", w86::make as common::Factory), ("w94", w94::make as common::Factory)]);
 }
